@@ -116,6 +116,7 @@ def run(tier):
     run = Run(PROP, tier, 'proof')
     spec_selfcheck()
     h = build()
+    msyn = h.monomorphise(['i32', 'f32'], bound='<S: BaseNum>', method_syntax='only', soft=True)
     nbase = len(h.specs)
     mono = h.monomorphise(['i32', 'u8', 'i64', 'f32', 'f64']) if tier == 'thorough' else []
     S, inv, meta = facts.extract(PROP, h.src())
@@ -126,6 +127,7 @@ def run(tier):
     if mono:
         run.floor('monomorphic_roots', len([n for n in mono if n in run.roots]), len(mono))
         run.notes['monomorphic_instantiations'] = {'types': ['i32', 'u8', 'i64', 'f32', 'f64'], 'roots': len(mono)}
+    run.notes['monomorphic_method_syntax_roots'] = len([n_ for n_ in msyn if n_ in run.roots])
     return run.finish(
         explanation='Every vector operation of dimension 1-4 is summarised from its type-checked MIR for an abstract scalar S: BaseNum and each output component is compared, as a polynomial over the input components, with the textbook definition (component-wise operators in all operand forms, ElementWise, dot, magnitude2, sum/product, cross via Levi-Civita, perp_dot, lerp, unit vectors, zero/is_zero). The algebraic laws in the statement follow from these definitions and are verified once on the spec side.',
         trusted_base=['rustc nightly type checking / trait resolution / MIR construction', 'mirsum abstract interpreter and its scalar-operation models', 'rules/algebra.py normal forms', 'real-number (field) semantics of + - * / on the abstract scalar; % uninterpreted'],
